@@ -4,12 +4,14 @@
 /* ASSUMED models of the two allocators of SRC/dmemory.c (same statement as a private @@external contract; written as
  * loop-free bodies because under `@@instrument legacy` a block that a REPLACED contract creates with __CPROVER_is_fresh
  * is not in the frame of the enforced function - measured, see contracts/dgstrf.spec):
- *   doubleCalloc(n): a new ledger block of exactly n doubles, every one 0.0 (calloc), or no return (the library ABORTs);
+ *   doubleCalloc(n): a new ledger block of exactly n doubles, every one 0.0 (n <= NCAP in this unit), or no return (the library ABORTs);
+ *                    (malloc + assumed zero contents: the legacy instrumentation tracks malloc'ed blocks, not calloc'ed ones)
  *   doubleMalloc(n): the same with ARBITRARY contents (only reached by the seeded mutant calloc_to_malloc). */
 double *doubleCalloc(size_t n)
 {
-    double *p = (double *)calloc(n, sizeof(double));
+    double *p = (double *)malloc(n * sizeof(double));
     if (!p) vf_abort("doubleCalloc");
+    __CPROVER_assume(__CPROVER_forall { int qz; (0 <= qz && qz < NCAP) ==> ((size_t)qz < n ==> p[qz] == 0.0) });
     g_live++;
     return p;
 }
@@ -22,6 +24,35 @@ double *doubleMalloc(size_t n)
     return p;
 }
 
+#if defined(SV_V_LN) || defined(SV_V_UN) || defined(SV_V_LT) || defined(SV_V_UT)
+/* The four solve variants: the argument objects are the TYPED, pairwise distinct, uninitialised (= nondeterministic) objects
+ * below - exactly the objects the contract's FRESH clauses describe (in these variants the contract text says rw_ok for
+ * them, macro SV_OBJ).  TOOL REASON (measured): __CPROVER_is_fresh creates untyped byte arrays; every dereference of a
+ * pointer loaded from such a block (L->Store->sup_to_col[k] ...) and every quantifier instance over it costs ~100 k clauses
+ * (10 M clauses / 260 s per variant against 1 M / seconds).  No assumption is made here: nothing is initialised except the
+ * pointer fields, and x is a block of 0..NCAP doubles (the contract requires L->nrow of them). */
+void h_sp_dtrsv(void)
+{
+    char uplo, trans, diag;
+    SuperMatrix L, U;
+    SCformat Ls;
+    NCformat Us;
+    int sup_to_col[NCAP + 1];
+    int_t rowind_colptr[NCAP + 1], nzval_colptr[NCAP + 1], rowind[LSUBCAP], ucolptr[NCAP + 1], urowind[UNZCAP];
+    double lnzval[LNZCAP], unzval[UNZCAP];
+    SuperLUStat_t stat;
+    flops_t ops[NPHASES];
+    int info;
+    size_t xn;   /* uninitialised = nondeterministic (an extra nondet_*() function symbol changes goto-instrument's processing order and the loop-contract pass then misses the inlined strncmp loops: measured) */
+    if (xn > NCAP) xn = NCAP;
+    double xo[xn];                /* a typed block of xn (0..NCAP) doubles; a call here (malloc) would change the processing order, see above */
+    double *x = xo;
+    Ls.sup_to_col = sup_to_col; Ls.rowind_colptr = rowind_colptr; Ls.nzval_colptr = nzval_colptr; Ls.rowind = rowind; Ls.nzval = lnzval;
+    Us.colptr = ucolptr; Us.rowind = urowind; Us.nzval = unzval;
+    L.Store = &Ls; U.Store = &Us; stat.ops = ops;
+    sp_dtrsv(&uplo, &trans, &diag, &L, &U, x, &stat, &info);
+}
+#else
 /* all argument objects are created by the contract's preconditions (__CPROVER_is_fresh) */
 void h_sp_dtrsv(void)
 {
@@ -32,3 +63,4 @@ void h_sp_dtrsv(void)
     int *info;
     sp_dtrsv(uplo, trans, diag, L, U, x, stat, info);
 }
+#endif
